@@ -410,7 +410,7 @@ pub fn roundtrip(thorough: bool) -> Report {
     };
     rep.evaluations += nests.len() as u64;
     rep.nontrivial += nests.len() as u64;
-    for (k, (ob, d)) in &nres { let n = &nests[*k]; rep.fail(&format!("nesting-{}", ob), format!("{}{}: {}", summary, n.describe_place_first(), d), history_json(&[Case::Nest(*n)]), d.clone()); }
+    for (k, (ob, d)) in &nres { let n = &nests[*k]; rep.fail(&format!("nesting-{}", ob), format!("{}[last document nests {} containers] {}: {}", summary, n.depth, n.describe_place_first(), d), history_json(&[Case::Nest(*n)]), d.clone()); }
     rep.sample(format!("nesting: {} documents, e.g. {}", nests.len(), nests[nests.len() / 3].describe()));
 
     // histories (A x r, B): r cycles of document A, then C01 for document B, on one fresh thread.
@@ -459,7 +459,8 @@ pub fn roundtrip(thorough: bool) -> Report {
         if earlier.len() > 6 { earlier_txt.push_str(&format!(", ... ({} runs of cycles in all, see the recorded input)", earlier.len())); }
         let (obl, what) = if f.confirmed.is_none() { (match last { Case::Nest(_) => format!("nesting-{}", ob), Case::Spec(_) => ob.clone() }, format!("[{} histories end in a document that fails on a fresh thread by itself as well and is reported there] fails by itself as well", n_repeat)) }
             else { (format!("after-earlier-cycles-{}", ob), format!("[{} histories end in a failure that their last document alone does not have, in total in this run] a document that round-trips on a fresh thread does not after earlier save/load cycles on the same thread{}", n_hist_only, if f.reproduced { "" } else { " (NOT reproduced on a fresh thread: recorded is everything the thread had run)" })) };
-        rep.fail(&obl, format!("{}: after the save/load cycles {}, the cycle of [{}]: {}", what, earlier_txt, last.describe(), d), history_json(h), d.clone());
+        let tag = match last { Case::Nest(n) => format!("[last document nests {} containers] ", n.depth), Case::Spec(_) => String::new() };
+        rep.fail(&obl, format!("{}{}: after the save/load cycles {}, the cycle of [{}]: {}", tag, what, earlier_txt, last.describe(), d), history_json(h), d.clone());
     }
     rep.sample(format!("histories: {} over nesting documents, {} over gen::docs pairs", h1.len(), h2.len()));
     rep
